@@ -35,6 +35,7 @@ type TxFacts struct {
 	FeeValid  bool     // fee is a valid coin set consisting of the stake denom only (or empty)
 	Amount    *big.Int
 	IsReplayOf bool
+	IsMutCopy  bool // a copy of an earlier transaction with a signed field changed after signing
 }
 
 func parseBig(s string) *big.Int {
@@ -120,6 +121,14 @@ func BuildTx(kr *Keyring, s TxSpec, prior Prior) (f TxFacts) {
 	case "replay":
 		// the very bytes of an earlier transaction: same facts, same hash
 		if orig, ok := prior.PriorSpec(s.ReplayBlock, s.ReplayTx); ok && orig.Kind != "replay" && orig.Kind != "skip" {
+			if s.Mut != "" && orig.Mut == "" && orig.RawMut == "" {
+				// a copy of an earlier transaction - same key, same signature bytes - with one signed field
+				// changed afterwards: other bytes (so no replay), and a signature that was verified before
+				orig.Mut = s.Mut
+				f = BuildTx(kr, orig, prior)
+				f.IsMutCopy = true
+				return
+			}
 			f = BuildTx(kr, orig, prior)
 			f.IsReplayOf = true
 			return
